@@ -31,7 +31,9 @@ RULE = (
     "(read(n), read(), readany, readline, readuntil, readexactly, readchunk, iter_*, read_nowait, "
     "unread_data) x limits x cancellation of blocked reads, interleaved by seeded virtual delays; "
     "in ~15 % of runs the ops arrive as multi-op segments through BaseProtocol.data_received() and a "
-    "parser that parks the rest of a segment on pause and replays it inside resume_reading(). "
+    "parser that parks the rest of a segment on pause and replays it inside resume_reading(); in ~12 % of runs "
+    "unread ops follow reads more often and push back the tail / the front / a rewritten copy of the last read, "
+    "earlier stream bytes or foreign bytes (1..2*limit+1 of them). "
     "Non-trivial: the reader blocked at least once AND the protocol was paused at least once; "
     "distinct = distinct interleaving signature (sequence of executed handle kinds + op kinds)."
 )
@@ -47,11 +49,17 @@ ASSUMPTIONS = [
     "parked runs: a parser honours a pause request between two ops of a segment, keeps the rest and continues "
     "when data_received(b'') is called from BaseProtocol.resume_reading() (what HttpPayloadParser does with _chunk_tail)",
     "unread_data() may lift the buffer over the high-water mark without a pause; the mark is judged again from the next arrival on",
+    "unread_data(data) inserts exactly `data` at the head of the buffer whatever was read before (its docstring): "
+    "the next reads return `data`, then the stream continues where it was",
     "a cancelled accumulating read (read(), readexactly, readuntil) may drop what it had collected; "
     "after such a cancel only order/no-duplication is judged",
 ]
 
 ACC_OPS = ("read_all", "readexactly", "readline", "readuntil")
+# what an unread op hands to unread_data(): the last n bytes of the last read (the classic
+# roll-back), its first n bytes, its last n bytes rewritten (a normalised copy), n stream bytes
+# returned before the last read, or n bytes that never were in the stream
+UNREAD_MODES = ("tail", "front", "front", "altered", "earlier", "foreign")
 
 
 _ALPHA = b"abcdefghijklmnopqrstuvwxyz0123456789:x" + b"\n" * 5 + b"\r\n"
@@ -136,6 +144,19 @@ def gen(rng, tier, index):
         glue = rng.choice([0.4, 0.7, 0.9])
         for i, o in enumerate(prod):
             o.append(1 if i and rng.random() < glue else 0)
+    # drawn after everything else for the same reason.  unread_data(data) "inserts data at the
+    # buffer head": in these scenarios what is pushed back is not always the tail of the last
+    # read (mode = 4th element of an unread op), and unread ops follow reads more often.
+    if not only_chunks and rng.random() < 0.12:
+        new = []
+        for o in cons:
+            new.append(o)
+            if o[1] == "unread":
+                o.append(rng.choice(UNREAD_MODES))
+            elif o[1] in ("read", "readany", "readline", "readuntil", "readexactly", "read_nowait") and rng.random() < 0.35:
+                new.append([rng.choice([0, 0, 0, 1]), "unread", rng.choice([1, 1, 2, 3, 5, limit, 2 * limit + 1]),
+                            rng.choice(UNREAD_MODES)])
+        scn["consumer"] = new
     return scn
 
 
@@ -168,6 +189,17 @@ def shrink(scn):
                 cand = dict(scn)
                 cand["producer"] = [list(o) for o in scn["producer"]]
                 cand["producer"][i][3] = 0
+                yield cand
+    for i, op in enumerate(scn["consumer"]):
+        if len(op) > 3:
+            cand = dict(scn)
+            cand["consumer"] = [list(o) for o in scn["consumer"]]
+            cand["consumer"][i] = list(op[:3])
+            yield cand
+            if op[3] != "front":
+                cand = dict(scn)
+                cand["consumer"] = [list(o) for o in scn["consumer"]]
+                cand["consumer"][i][3] = "front"
                 yield cand
     for key in ("producer", "consumer"):
         for i, op in enumerate(scn[key]):
@@ -358,11 +390,14 @@ def run(scn, ch, log=False):
             "fed": 0, "consumed": 0, "eof": False, "exc": False, "ends": [], "lossy": False,
             "blocked": 0, "cur": None, "chunk_groups": [], "group": bytearray(), "crossed": False,
             "in_op": False, "last": b"", "done_ops": 0, "cur_op": "", "cands": None,
-            "unread_over": False,
+            "unread_over": False, "push": b"", "blind": False,
         }
         probes = {"blocked": 0, "paused": 0, "cancel_fired": 0, "lossy": 0, "linetoolong": 0,
                   "chunk_true": 0, "unread": 0, "exc_raised": 0, "iter_ended": 0, "iter_boundary_marker": 0, "iter_chunks_from_boundary": 0,
-                  "segments": 0, "parked": 0, "replayed_in_resume": 0, "repaused_in_resume": 0}
+                  "segments": 0, "parked": 0, "replayed_in_resume": 0, "repaused_in_resume": 0, "blind": 0,
+                  "unread_inside_block": 0}
+        for _mode in UNREAD_MODES:
+            probes["unread_" + _mode] = 0
         prod = [list(o) for o in scn["producer"]]
         state = {"pi": 0, "waiting": False}
 
@@ -433,7 +468,7 @@ def run(scn, ch, log=False):
             if viols or m["exc"]:
                 return
             low, high = stream.get_read_buffer_limits()
-            buffered = m["fed"] - m["consumed"]
+            buffered = len(m["push"]) + m["fed"] - m["consumed"]
             pending_ends = sum(1 for e in m["ends"] if e >= m["consumed"])
             if tr.paused:
                 probes["paused"] += 1
@@ -463,7 +498,7 @@ def run(scn, ch, log=False):
             t = m["cur"]
             if t is not None and not t.done() and m["in_op"]:
                 # consumer blocked inside a read call?
-                buffered = m["fed"] - m["consumed"]
+                buffered = len(m["push"]) + m["fed"] - m["consumed"]
                 if tr.paused and buffered == 0 and not m["lossy"] and not m["eof"] and not m["exc"]:
                     fw = t._fut_waiter
                     if fw is not None and not fw.done():
@@ -478,12 +513,36 @@ def run(scn, ch, log=False):
             m["lossy"] = True
             m["cands"] = None
             probes["lossy"] += 1
+            if m["push"]:
+                # part of what unread_data() inserted may have gone with the dropped read: the
+                # position cannot be re-identified in the stream content, delivery is not judged any more
+                m["blind"] = True
+                m["push"] = b""
+                probes["blind"] += 1
 
         def account(data, op):
             """bytes returned by a read: must be the next bytes of the stream."""
             if not data:
                 return
             data = bytes(data)
+            if m["blind"]:
+                return
+            if m["push"] and not m["lossy"]:
+                # what unread_data() inserted at the head comes first, then the stream goes on
+                push = m["push"]
+                k = min(len(push), len(data))
+                rest = len(data) - k
+                exp = push[:k] + content[m["consumed"]: m["consumed"] + rest]
+                if m["consumed"] + rest > m["fed"] or exp != data:
+                    violate("exact_ordered_delivery", f"mismatch_after_unread_{op}",
+                            f"{op} returned {data[:40]!r} (len {len(data)}) but unread_data() had inserted {push[:40]!r} "
+                            f"at the head of the buffer, followed by stream position {m['consumed']} "
+                            f"({content[m['consumed']: m['consumed'] + 20]!r}...); expected {exp[:40]!r}; fed={m['fed']}")
+                    return
+                m["push"] = push[k:]
+                m["consumed"] += rest
+                m["last"] = data
+                return
             exp = content[m["consumed"]: m["consumed"] + len(data)]
             if m["lossy"]:
                 # position uncertain: keep the set of candidate positions
@@ -518,7 +577,7 @@ def run(scn, ch, log=False):
             m["last"] = data
             m["lossy"] = False
 
-        async def one(op, arg):
+        async def one(op, arg, mode=None):
             low0 = stream.get_read_buffer_limits()[0]
             if op == "read":
                 d = await stream.read(arg)
@@ -529,7 +588,7 @@ def run(scn, ch, log=False):
             elif op == "read_all":
                 d = await stream.read()
                 account(d, op)
-                if not viols and not m["lossy"] and not (m["eof"] and m["consumed"] == m["fed"]):
+                if not viols and not m["lossy"] and not (m["eof"] and m["consumed"] == m["fed"] and not m["push"]):
                     violate("eof_after_all_data", "read_all_early",
                             f"read() returned before EOF/all data: consumed={m['consumed']} fed={m['fed']} eof={m['eof']}")
             elif op == "readany":
@@ -570,12 +629,30 @@ def run(scn, ch, log=False):
                     violate("exact_ordered_delivery", "read_nowait_too_long", f"read_nowait({arg}) -> {len(d)}")
                 account(d, op)
             elif op == "unread":
-                d = m["last"][-arg:]
+                last = m["last"]
+                if mode in (None, "tail"):
+                    d = last[-arg:]
+                elif mode == "front":
+                    d = last[:arg]
+                elif mode == "altered":
+                    d = last[-arg:].swapcase()
+                elif mode == "earlier":
+                    s = m["consumed"] - (0 if m["push"] else len(last))
+                    d = content[max(0, s - arg): s]
+                else:
+                    d = (b"#%d#" % m["done_ops"] * arg)[:arg]
                 if d and not m["lossy"]:
                     probes["unread"] += 1
+                    if mode is not None:
+                        probes["unread_" + mode] += 1
+                        if stream._buffer_offset:
+                            probes["unread_inside_block"] += 1
                     stream.unread_data(d)
                     m["unread_over"] = True
-                    m["consumed"] -= len(d)
+                    if mode is None and not m["push"]:
+                        m["consumed"] -= len(d)
+                    else:
+                        m["push"] = d + m["push"]
                     m["last"] = b""
                     m["crossed"] = True
             elif op == "iter_chunked":
@@ -630,14 +707,14 @@ def run(scn, ch, log=False):
             probes["iter_ended"] += 1
             if viols or m["lossy"]:
                 return
-            if not (m["eof"] and m["consumed"] == m["fed"]):
+            if not (m["eof"] and m["consumed"] == m["fed"] and not m["push"]):
                 violate("eof_after_all_data", f"early_end_{op}",
                         f"async iteration ({op}) ended but eof={m['eof']} consumed={m['consumed']} fed={m['fed']}")
 
         def eof_check(d, op):
             if viols or m["lossy"]:
                 return
-            if not d and not (m["eof"] and m["consumed"] == m["fed"]):
+            if not d and not (m["eof"] and m["consumed"] == m["fed"] and not m["push"]):
                 violate("eof_after_all_data", f"early_eof_{op}",
                         f"{op} returned b'' but eof={m['eof']} consumed={m['consumed']} fed={m['fed']}")
 
@@ -667,7 +744,9 @@ def run(scn, ch, log=False):
         cons = [list(o) for o in scn["consumer"]]
 
         async def consumer():
-            for idx, (d, op, arg) in enumerate(cons):
+            for idx, o in enumerate(cons):
+                d, op, arg = o[:3]
+                mode = o[3] if len(o) > 3 else None
                 if d:
                     await asyncio.sleep(d * 0.001)
                 if viols:
@@ -675,7 +754,7 @@ def run(scn, ch, log=False):
                 loop.note("cons", f"{op}:{arg}")
                 m["in_op"] = True
                 m["cur_op"] = op
-                t = loop.create_task(one(op, arg), name="read")
+                t = loop.create_task(one(op, arg, mode), name="read")
                 m["cur"] = t
                 try:
                     await asyncio.wait([t])
